@@ -102,7 +102,8 @@ def check(case):
                     m = be.build(ode, bk, ["explicit_euler", "generalized_rush_larsen", "hybrid_rush_larsen"], delta=delta, stiff_states=S)
                 except be.Stage as e:
                     res["evals"] += 1
-                    add(f"generation-raises:{cm.exc_site(e.exc) if e.stage == 'codegen' else e.stage}", f"hybrid_rush_larsen(stiff_states={S}) cannot be generated although Euler and GRL can", dict(inp0, points=[]), "scheme", cm.exc_name(e.exc), str(e))
+                    pwc = cm.PW_COLLAPSES if e.stage == "codegen" and "_print_Piecewise" in cm.exc_site(e.exc) and cm.piecewise_collapses(cm.model_exprs(ode) + cm.own_state_derivative_exprs(ode)) else ""
+                    add(f"generation-raises{pwc}:{cm.exc_site(e.exc) if e.stage == 'codegen' else e.stage}", f"hybrid_rush_larsen(stiff_states={S}) cannot be generated although Euler and GRL can", dict(inp0, points=[]), "scheme", cm.exc_name(e.exc), str(e))
                     continue
                 inS = set(S or []) & set(ref.states)
                 foreign = [x for x in (S or []) if x not in ref.states]
